@@ -45,7 +45,7 @@ fn quantile_differential<const R: usize, const C: usize, const RC: usize>(layout
     kani::cover!(pay[0] != pay[1] && pay[0] != pay[RC - 1], "W: non-constant data");
 }
 
-//@ prop=C20,C01:thorough tier=quick mem=10 timeout=3600 flags=modelmap uses=cut inst="quantiles_axis_mut(Axis(0), [0.3, 1.0], Midpoint) on Array2<i16> 2x2: C-order owned vs stepped view" bounds="i8-range payloads; unwind 8"
+//@ prop=C20,C01 tier=thorough mem=10 timeout=5400 flags=modelmap uses=cut inst="quantiles_axis_mut(Axis(0), [0.3, 1.0], Midpoint) on Array2<i16> 2x2: C-order owned vs stepped view" bounds="i8-range payloads; unwind 8"
 #[kani::proof]
 #[kani::unwind(8)]
 fn c20_quantile_c_vs_stepped() {
@@ -71,20 +71,20 @@ fn c20_quantile_c_vs_frev() {
 }
 
 /// Static vs dynamic dimensionality on the quantile path.
-//@ prop=C20,C01:thorough tier=quick mem=8 timeout=3600 flags=modelmap uses=cut inst="quantile_axis_mut(Axis(0), 0.5, Nearest) on Array2<i16> 2x2 vs the same array into_dyn()" bounds="i8-range payloads; unwind 8"
+//@ prop=C20,C01:thorough tier=quick mem=8 timeout=3600 flags=modelmap uses=cut inst="quantile_axis_mut(Axis(0), 0.5, Nearest) on Array2<i16> 2x1 vs the same array into_dyn()" bounds="i8-range payloads; unwind 8"
 #[kani::proof]
 #[kani::unwind(8)]
 fn c20_quantile_static_vs_dyn() {
-    let pay: [i8; 4] = kani::any();
-    let vals = [pay[0] as i16, pay[1] as i16, pay[2] as i16, pay[3] as i16];
+    let pay: [i8; 2] = kani::any();
+    let vals = [pay[0] as i16, pay[1] as i16];
     arm_bulk_contract();
-    let mut dynamic = parent2(&vals, 2, 2, 0, 0i16).into_dyn();
+    let mut dynamic = parent2(&vals, 2, 1, 0, 0i16).into_dyn();
     let r2 = dynamic.quantile_axis_mut(Axis(0), n64(0.5), &Nearest).unwrap();
-    let mut stat = parent2(&vals, 2, 2, 0, 0i16);
+    let mut stat = parent2(&vals, 2, 1, 0, 0i16);
     let r3 = stat.quantile_axis_mut(Axis(0), n64(0.5), &Nearest).unwrap();
-    assert!(r2.len() == 2 && r3.len() == 2);
-    assert!(r2[[0]] == r3[0] && r2[[1]] == r3[1], "static vs dynamic dimensionality");
-    kani::cover!(pay[0] != pay[2], "W: non-constant lane");
+    assert!(r2.len() == 1 && r3.len() == 1);
+    assert!(r2[[0]] == r3[0], "static vs dynamic dimensionality");
+    kani::cover!(pay[0] != pay[1], "W: non-constant lane");
 }
 
 /// Ownership: owned / shared / copy-on-write, integer sums and distances (2x2).
